@@ -25,7 +25,7 @@ for pid in [a for a in sys.argv[1:] if not a.startswith('--')]:
             continue
         name = '%s-%s' % (pid, MAP[x])
         keep = os.path.join(VERIF, 'seeded', name)
-        cmd = ['python3', os.path.join(VERIF, 'tools', 'seedtest.py'), diff, demo, pid, '--name', name, '--thorough',
+        cmd = ['python3', os.path.join(VERIF, 'tools', 'seedtest.py'), diff, demo, pid, '--name', name] + ([] if '--quickonly' in flags else ['--thorough']) + [
                '--keep', keep, '--needs', '[round %d, author\'s change %s] %s' % (ROUND, x, notes[:8000])]
         if '--all' in flags:
             cmd.append('--all')
